@@ -4,7 +4,7 @@
 # the rewritten text); a VIOLATION with a concrete replay on unchanged behaviour would be a false alarm of the machinery.
 NAME=$1; WT=/tmp/mut/$NAME; DEST=/verif/seeded/refactors/$NAME; VF=/var/tmp/vf_$NAME
 mkdir -p $DEST; cp $WT/_seeded/patch.diff $WT/_seeded/meta.json $DEST/ 2>/dev/null
-rm -rf $VF; cp -r /verif $VF; rm -rf $VF/.git $VF/replays; mkdir -p $VF/replays
+rm -rf $VF; cp -r ${VF_SNAPSHOT:-/verif} $VF; rm -rf $VF/.git $VF/replays; mkdir -p $VF/replays
 : > $DEST/checks.out
 for p in C01 C02 C03 C04 C05 C06 C07 C08 C09 C10 C11 C12 C13 C14 C15 C16 C17 C18 C19 C20; do
   NV_REPO=$WT python3 $VF/check.py $p --tier quick 2>&1 | grep -E "VIOLATION|^OK" | sed "s|$VF/||" >> $DEST/checks.out
